@@ -88,6 +88,21 @@ func GetJoinValidErrStr(objName, fieldName, inputVal string, others ...string) s
 	return res.String()
 }
 
+// missingRequiredErr 用于 map/url: 规则里有 required 的 key 不存在时生成错误信息, 没有 required 返回 ""
+func missingRequiredErr(fieldName, validNames string) string {
+	for _, validName := range ValidNamesSplit(validNames) {
+		validKey, _, cusMsg := ParseValidNameKV(validName)
+		if validKey != Required {
+			continue
+		}
+		if cusMsg != "" {
+			return GetJoinValidErrStr("", fieldName, "", cusMsg)
+		}
+		return GetJoinValidErrStr("", fieldName, "", ExplainEn, "it is", Required)
+	}
+	return ""
+}
+
 // CheckFieldIsStr 验证字段类型是否为字符串
 func CheckFieldIsStr(objName, fieldName string, tv reflect.Value) (err error) {
 	switch tv.Kind() {
